@@ -113,12 +113,6 @@ Section Check.
         node_ty G h ts
     end.
 
-  Lemma typeof_eq G h args : typeof G (E h args) = do ts <- mapM (typeof G) args; node_ty G h ts.
-  Proof.
-    simpl. f_equal.
-    induction args as [|a r IH]; simpl; [reflexivity|]. now rewrite IH.
-  Qed.
-
   Definition is_lvalue (e : expr) : bool :=
     match e with
     | E (HVar _) [] => true
@@ -173,23 +167,6 @@ Section Check.
     | [] => Ok tt
     | a :: r => do G' <- check_stmt rets G a; check_block rets G' r
     end.
-
-  Lemma check_stmt_eq rets G h es b1 b2 :
-    check_stmt rets G (St h es b1 b2) =
-      do ts <- mapM (typeof G) es;
-      do G' <- stmt_ty rets G h ts (match es with l :: _ => is_lvalue l | [] => false end);
-      do _ <- check_block rets G b1;
-      do _ <- check_block rets G b2;
-      Ok G'.
-  Proof.
-    assert (Hb : forall l G0,
-      (fix blk (G : env) (l : list stmt) : res unit :=
-         match l with [] => Ok tt | a :: r => do G' <- check_stmt rets G a; blk G' r end) G0 l
-      = check_block rets G0 l).
-    { induction l as [|a r IH]; intros; simpl; [reflexivity|].
-      destruct (check_stmt rets G0 a); simpl; auto. }
-    simpl. rewrite !Hb. reflexivity.
-  Qed.
 
   Fixpoint param_env (f j : nat) (ts : list ty) : env :=
     match ts with
